@@ -28,21 +28,30 @@ Theorem C16_unique_names : forall n1 n2,
 Proof. exact render_name_inj. Qed.
 Print Assumptions C16_unique_names.
 
-(* The table built by the preprocessor (guard no_collision: no '_.wflip_area_start_i' segment label carries the name
-   of a declared or start label - see C16_table_refuted):
+(* The table built by the preprocessor:
    1. keys are unique (a second declaration is an error, not a silent overwrite);
    2. every declared label maps to the address of its declaration;
-   3. a ':start:' label that is in the table sits at its expansion's start address, and no declared label has that address;
-   4. every expansion start address carries at least one label. *)
+   3. a ':start:' label that is in the table sits at its expansion's start address, and no declared label has that
+      address (start names are pairwise distinct and differ from every declared and segment label, by C16_unique_names
+      and because segment labels '_.wflip_area_start_i' contain no '-');
+   4. every expansion start address carries at least one label.
+   (Unguarded since the segment-label collision - findings F17 / N2 - was fixed: see C16_names_distinct.) *)
 Theorem C16_table : forall evs starts t,
-  build evs starts = BOk t -> no_collision evs starts = true ->
+  build evs starts = BOk t ->
   NoDup (keys t) /\
   (forall n a, In (Decl n a) evs -> lookup t n = Some a) /\
-  (NoDup (map fst starts) -> (forall n, In n (map fst starts) -> ~ In n (decl_names evs)) ->
+  (NoDup (map fst starts) ->
+   (forall n, In n (map fst starts) -> ~ In n (decl_names evs) /\ ~ In n (silent_names evs)) ->
    forall n a a', In (n, a) starts -> lookup t n = Some a' -> a' = a /\ ~ In a (decl_addrs evs)) /\
   (forall n a, In (n, a) starts -> exists l, lookup t l = Some a).
 Proof. exact table_exact. Qed.
 Print Assumptions C16_table.
+
+(* whenever a table is produced, all declared labels and segment labels have pairwise distinct names: a source label
+   spelled like a segment label is a "label declared twice" error in either order, never an overwrite *)
+Theorem C16_names_distinct : forall evs starts t, build evs starts = BOk t -> NoDup (map ev_name evs).
+Proof. exact names_distinct. Qed.
+Print Assumptions C16_names_distinct.
 
 (* save then load returns the table, under the round-trip laws of json and raw LZMA2 (premises of the theorem) *)
 Theorem C16_roundtrip : forall (bytes : Type) (json_dumps : table -> bytes) (json_loads : bytes -> option table)
@@ -71,19 +80,15 @@ Theorem C16_breakpoint_warnings : forall Ls t l, In l (bp_warnings Ls t) <-> In 
 Proof. exact bp_warnings_spec. Qed.
 Print Assumptions C16_breakpoint_warnings.
 
-(* ---- new finding: a source label named like a segment label is silently re-pointed ----
-   `ns _ { wflip_area_start_0: op }  op  segment ...` : the label is declared at address 0, insert_segment then assigns
-   labels['_.wflip_area_start_0'] = 64 without the duplicate check; clause 2 of C16_table fails without the guard. *)
-Definition collide_evs := [Decl (S_ "_.wflip_area_start_0") 0; Silent (S_ "_.wflip_area_start_0") 64].
-Example C16_table_refuted :
-  exists t, build collide_evs [([45; 45; 45] ++ start_leaf, 0%Z)] = BOk t /\
-            In (Decl (S_ "_.wflip_area_start_0") 0) collide_evs /\ lookup t (S_ "_.wflip_area_start_0") = Some 64%Z /\
-            no_collision collide_evs [([45; 45; 45] ++ start_leaf, 0%Z)] = false.
-Proof. eexists. vm_compute. repeat split. now left. Qed.
-(* the other order (segment first, label later) takes the KeyError exit *)
-Example C16_segment_label_keyerror :
-  build [Silent (S_ "_.wflip_area_start_0") 32; Decl (S_ "_.wflip_area_start_0") 4096] [] = BRaw (S_ "_.wflip_area_start_0").
-Proof. vm_compute. reflexivity. Qed.
+(* ---- the former findings F17 / N2: a source label named like a segment label is now rejected in both orders ----
+   `ns _ { wflip_area_start_0: op }  op  segment ...`  (label first: used to be silently re-pointed to 64) and
+   `op  segment ...  ns _ { wflip_area_start_0: op }`   (segment first: used to die with KeyError). *)
+Example C16_segment_label_collision_rejected :
+  build [Decl (S_ "_.wflip_area_start_0") 0; Silent (S_ "_.wflip_area_start_0") 64] [([45; 45; 45] ++ start_leaf, 0%Z)]
+    = BDup (S_ "_.wflip_area_start_0") /\
+  build [Silent (S_ "_.wflip_area_start_0") 32; Decl (S_ "_.wflip_area_start_0") 4096] []
+    = BDup (S_ "_.wflip_area_start_0").
+Proof. vm_compute. split; reflexivity. Qed.
 
 (* ---- the hypotheses are satisfiable on a non-trivial expansion ---- *)
 (*   f2:l1  m 1, foo        (m declares @x, the parameter label foo, and reps n twice; n declares @z)  *)
@@ -98,7 +103,6 @@ Definition nv_starts := [(render_label [] start_leaf, 0%Z); (render_label [nv_m]
 Example C16_nonvacuous :
   render_label [nv_m; nv_n 1] (S_ "z") = S_ "f2:l1:m(2)---f1:l5:rep1:a.n(1)---z" /\
   render_label [] start_leaf = S_ "---:start:" /\
-  no_collision nv_evs nv_starts = true /\
   build nv_evs nv_starts =
     BOk [(S_ "start", 0); (S_ "f2:l1:m(2)---x", 0); (S_ "foo", 32); (S_ "f2:l1:m(2)---f1:l5:rep0:a.n(1)---z", 64);
          (S_ "f2:l1:m(2)---f1:l5:rep1:a.n(1)---z", 96); (S_ "_.wflip_area_start_0", 128); (S_ "seg", 4096);
